@@ -218,6 +218,7 @@ pub fn faultrun(args: &Args) -> i32 {
         }
     };
 
+    let known_set = crate::load_known(args);
     let opts = InstOpts {
             detached: false,
         filter_seed: None,
@@ -241,6 +242,8 @@ pub fn faultrun(args: &Args) -> i32 {
         }
     };
     inst.call_markers = Some(mf);
+    // every history of this engine lies inside C16's quantifier ("x histories"): a wrong read anywhere in it counts
+    inst.extra_tags = vec!["C16"];
     mark("M E -1".into());
     let keys = inst.all_keys();
     let copy = dir.with_extension("copy");
@@ -402,6 +405,12 @@ pub fn faultrun(args: &Args) -> i32 {
                     }
                     let _ = std::fs::remove_dir_all(&copy);
                 }
+            }
+            Err(v) if v.tags.iter().any(|t| known_set.contains(&(t.clone(), v.sig.clone()))) => {
+                // a listed known finding of another property (e.g. the relocation panic on ingested blob frames): not
+                // this property's matter, and the history cannot be continued
+                inst.known_hits.entry(format!("{}|{}", v.tags.first().cloned().unwrap_or_default(), v.sig)).or_insert((0, v.msg.clone())).0 += 1;
+                break 'ops;
             }
             Err(v) => {
                 // anything else (wrong read, panic, audit finding of C16 itself)
